@@ -234,6 +234,9 @@ class Batch:
         shutil.rmtree(self.tmp, ignore_errors=True)
 
 def fixture(name):
+    # seed files of our own (corpus/C06/seed_*): shapes no repository fixture has
+    if name.startswith("seed_"):
+        return os.path.join(CORPUS, name)
     return os.path.join(vlib.FIXTURE_DIR, name)
 
 def all_fixtures():
@@ -252,6 +255,12 @@ SEEDS_QUICK = [
     ("vba.xlsm", "xlsx", ("vba",)),
     ("any_sheets.ods", "ods", ("zip", "xml")),
     ("with-annotation.ods", "ods", ("xml-parts", r"content\.xml")),
+]
+SEEDS_QUICK += [
+    # worksheets with chart substreams nested in them (one and two levels deep): every record of the
+    # sheet AND of the nested substreams cut, resized and overrun
+    ("seed_embedded_chart.xls", "xls", ("biff",)),
+    ("seed_two_charts_nested.xls", "xls", ("biff",)),
 ]
 SEEDS_THOROUGH = SEEDS_QUICK + [
     ("any_sheets.xls", "xls", ("cfb", "biff", "vba")),
